@@ -1,5 +1,4 @@
 use crate::algorithm::search::direction::Direction;
-use crate::algorithm::search::edge_traversal::EdgeTraversal;
 use crate::algorithm::search::search_error::SearchError;
 use crate::algorithm::search::search_instance::SearchInstance;
 use crate::algorithm::search::search_result::SearchResult;
@@ -172,129 +171,6 @@ pub fn run_a_star(
 
     let result = SearchResult::new(solution, iterations);
     Ok(result)
-}
-
-/// convenience method when origin and destination are specified using
-/// edge ids instead of vertex ids. invokes a vertex-oriented search
-/// from the out-vertex of the source edge to the in-vertex of the
-/// target edge. composes the result with the source and target.
-///
-/// not tested.
-pub fn run_a_star_edge_oriented(
-    source: EdgeId,
-    target: Option<EdgeId>,
-    direction: &Direction,
-    weight_factor: Option<Cost>,
-    si: &SearchInstance,
-) -> Result<SearchResult, SearchError> {
-    // 1. guard against edge conditions (src==dst, src.dst_v == dst.src_v)
-    let e1_src = si.directed_graph.src_vertex_id(&source)?;
-    let e1_dst = si.directed_graph.dst_vertex_id(&source)?;
-    let src_et = EdgeTraversal {
-        edge_id: source,
-        access_cost: Cost::ZERO,
-        traversal_cost: Cost::ZERO,
-        result_state: si.state_model.initial_state()?,
-    };
-    let src_branch = SearchTreeBranch {
-        terminal_vertex: e1_src,
-        edge_traversal: src_et,
-    };
-
-    match target {
-        None => {
-            let SearchResult {
-                mut tree,
-                iterations,
-            } = run_a_star(e1_dst, None, direction, weight_factor, si)?;
-            if !tree.contains_key(&e1_dst) {
-                tree.extend([(e1_dst, src_branch)]);
-            }
-            let updated = SearchResult {
-                tree,
-                iterations: iterations + 1,
-            };
-            Ok(updated)
-        }
-        Some(target_edge) => {
-            let e2_src = si.directed_graph.src_vertex_id(&target_edge)?;
-            let e2_dst = si.directed_graph.dst_vertex_id(&target_edge)?;
-
-            if source == target_edge {
-                Ok(SearchResult::default())
-            } else if e1_dst == e2_src {
-                // route is simply source -> target
-                let init_state = si.state_model.initial_state()?;
-                let src_et = EdgeTraversal::forward_traversal(source, None, &init_state, si)?;
-                let dst_et = EdgeTraversal::forward_traversal(
-                    target_edge,
-                    Some(source),
-                    &src_et.result_state,
-                    si,
-                )?;
-                let src_traversal = SearchTreeBranch {
-                    terminal_vertex: e2_src,
-                    edge_traversal: dst_et,
-                };
-                let dst_traversal = SearchTreeBranch {
-                    terminal_vertex: e1_src,
-                    edge_traversal: src_et,
-                };
-                let tree = HashMap::from([(e2_dst, src_traversal), (e1_dst, dst_traversal)]);
-                let result = SearchResult {
-                    tree,
-                    iterations: 1,
-                };
-                return Ok(result);
-            } else {
-                // run a search and append source/target edges to result
-                let SearchResult {
-                    mut tree,
-                    iterations,
-                } = run_a_star(e1_dst, Some(e2_src), direction, weight_factor, si)?;
-
-                if tree.is_empty() {
-                    return Err(SearchError::NoPathExistsBetweenVertices(e1_dst, e2_src));
-                }
-
-                let final_state = &tree
-                    .get(&e2_src)
-                    .ok_or_else(|| {
-                        SearchError::InternalError(format!(
-                            "resulting tree missing vertex {} expected via backtrack",
-                            e2_src
-                        ))
-                    })?
-                    .edge_traversal
-                    .result_state;
-                let dst_et = EdgeTraversal {
-                    edge_id: target_edge,
-                    access_cost: Cost::ZERO,
-                    traversal_cost: Cost::ZERO,
-                    result_state: final_state.to_vec(),
-                };
-                let dst_traversal = SearchTreeBranch {
-                    terminal_vertex: e2_src,
-                    edge_traversal: dst_et,
-                };
-
-                // it is possible that the search already found these vertices. one major edge
-                // case is when the trip starts with a u-turn.
-                if !tree.contains_key(&e1_dst) {
-                    tree.extend([(e1_dst, src_branch)]);
-                }
-                if !tree.contains_key(&e2_dst) {
-                    tree.extend([(e2_dst, dst_traversal)]);
-                }
-
-                let result = SearchResult {
-                    tree,
-                    iterations: iterations + 2,
-                };
-                Ok(result)
-            }
-        }
-    }
 }
 
 /// grab the current vertex id, but handle some other termination conditions
